@@ -50,6 +50,16 @@ Theorem C10_split_shape : forall (A : Type) (p : nat) (l : list A),
 Proof. intros A p l Hp. split; [exact (split_shape p l Hp)|exact (split_balanced p l Hp)]. Qed.
 Print Assumptions C10_split_shape.
 
+(* a pool no larger than the batch never hands the function an empty piece; a larger pool does (numpy.array_split
+   pads with empty sections), so a vectorised user function must accept an empty batch there *)
+Theorem C10_split_nonempty : forall (A : Type) (p : nat) (l : list A),
+  1 <= p -> p <= length l -> Forall (fun c => c <> []) (split_n p l).
+Proof. exact @split_nonempty. Qed.
+Print Assumptions C10_split_nonempty.
+
+Example C10_split_empty_piece : split_n 3 [1; 2] = [[1]; [2]; []].
+Proof. vm_compute. reflexivity. Qed.
+
 (* every decision tree accepted by the checker computes map f, for every function,
    every vectorised twin that agrees with it, every order-preserving pool map,
    every input list (including the empty one), every chunk size, every pool size >= 1 *)
